@@ -28,3 +28,17 @@ Theorem C19_operator_choice : forall p s,
   (exists v, s = [v] /\ clause_of (p, s) = GEq p v) \/ (List.length s <> 1%nat /\ clause_of (p, s) = GIn p s).
 Proof. exact operator_choice. Qed.
 Print Assumptions C19_operator_choice.
+
+(* the two halves of the statement on the value sets: the template passes the clauses generated from it, and a value it does not
+   give to that property of that type makes the clause fail *)
+Theorem C19_template_passes_its_own_clauses : forall rs r t p v,
+  In r rs -> fst r = Some t -> In (p, v) (snd r) ->
+  clause_accepts (clause_of (p, values_of (gen_rules rs) t p)) v = true.
+Proof. exact template_passes_its_own_clauses. Qed.
+Print Assumptions C19_template_passes_its_own_clauses.
+
+Theorem C19_foreign_value_is_rejected : forall rs t p w,
+  (forall r, In r rs -> fst r = Some t -> ~ In (p, w) (snd r)) ->
+  clause_accepts (clause_of (p, values_of (gen_rules rs) t p)) w = false.
+Proof. exact foreign_value_is_rejected. Qed.
+Print Assumptions C19_foreign_value_is_rejected.
